@@ -6,12 +6,13 @@ import sqlite3 as _sq
 import time
 
 from . import common
+from . import sched_graph as SG
 from . import sched_model as M
 from .sched_common import Sim, choose_targets, gen_plan, run, with_before
 
 PID = "C10"
 PROPS_FILE = "props/C10.v"
-MODEL_TARGETS = ["model/Sched.vo"]
+MODEL_TARGETS = ["model/Sched.vo", "model/SchedGraph.vo"]
 RULE = ("random build histories driven through the real Workflow/Scheduler API by harness/sched_common.py "
         "(plans with OPTIONAL/DEFAULT/PLAN steps, chains of optional steps, amended inputs, recycled and "
         "dropped children, hold/release, defers up to the cap, resources, exact and directory targets that "
@@ -337,19 +338,6 @@ def correspondence(ctx):
                     checks.append(f"match release_step {gb} {k} with Some g' => graph_eqb g' {ga} | None => false end")
                 descr.append((op, hi, ei))
                 ctx.case((op, repr(before), k), True)
-            elif op in ("start", "mark_pending", "end", "skip", "validate", "external") and "rejected" not in ev \
-                    and before is not None and ev["args"].get("kind") != "early_fail":
-                # a composite operation replayed as a sequence of model primitives
-                k = ev["args"].get("step", ev["args"].get("path"))
-                seq = M.decompose_event(ev)
-                gb, ga = M.to_coq(before), M.to_coq(after)
-                # the sequence lands on the real tables, and every primitive is applied where the side
-                # condition of its flag-soundness theorem holds (run_ok_b)
-                checks.append(f"let gb := {gb} in let sq := {seq} in run_ok_b gb sq && "
-                              f"match run_prims gb sq with Some g' => graph_eqb g' {ga} | None => false end")
-                descr.append(("composite:" + op, hi, ei))
-                ctx.count("composite." + op)
-                ctx.case(("composite", op, repr(before), k), seq != "[]")
             elif op == "revert":
                 gb, ga = M.to_coq(before), M.to_coq(after)
                 labels = {f["label"]: f["key"] for f in before["files"]}
@@ -379,6 +367,7 @@ def correspondence(ctx):
             descr.append(("prim:" + rec["op"], hi, pi))
             ctx.count("prim." + rec["op"])
             ctx.case(("prim", rec["op"], repr(rec["before"]), repr(rec["args"])), "rejected" not in rec)
+    _projection_cases(ctx, hs)
     ctx.count("correspondence_cases", len(checks))
     for d in descr[-3:]:
         ctx.sample({"correspondence-case": d})
@@ -395,6 +384,72 @@ def correspondence(ctx):
         seen.add(sig)
         wit, detail = _explain(ctx, hs, descr[i], checks[i])
         ctx.add_failure("correspondence", kind, sig, detail, witness=wit)
+
+
+def _tx_of(ev):
+    """(snapshot before, operations) of an event that is a transaction of Graph.v's alphabet."""
+    op = ev["op"]
+    if op == "tick":
+        return ev.get("after_meta"), SG.tick_ops(ev)
+    before = ev.get("before")
+    if before is None:
+        if op != "boot":
+            return None, None
+        before = dict(ev["after"])
+        before.update(SG.EMPTY)
+    return before, SG.event_ops(ev, before)
+
+
+def _projection_cases(ctx, hs):
+    """Every transaction of every history (define_step new / partial recycle / full recycle, amend_step,
+    declare_static_files, delete_detached, update_file_hashes, reset_for_rerun, mark_completed, dispatch,
+    hold/release, ...): the primitive sequence that model/SchedGraph.v projects from the transaction
+    model, replayed on the Sched snapshot before, lands on ALL real scheduling columns after, and every
+    primitive is applied where the side condition of its flag-soundness theorem holds (run_ok_b), so
+    C10_primitive_sequences_preserve_FlagInv_decidable applies to every real transaction."""
+    checks, descr = [], []
+    for hi, h in enumerate(hs):
+        for ei, ev in enumerate(h["events"]):
+            if "error" in ev or "rejected" in ev:
+                # a rejected request is rolled back (flags included): nothing is projected.  Whether the
+                # transaction model rejects the same requests is C09's correspondence (targets, which
+                # cause some of the rejections here, are not part of that model)
+                continue
+            before, ops = _tx_of(ev)
+            if not ops:
+                continue
+            checks.append(SG.tx_case(ev, before, ev["after"], ops, M.to_coq))
+            kind = ev["op"] + ((":" + ev["recycle"]) if ev.get("recycle") else "")
+            descr.append((kind, hi, ei))
+            ctx.count("projection." + kind)
+            ctx.case(("projection", ev["op"], repr(before), repr(ev.get("args")), ev.get("choice")), True)
+    ctx.count("projection_cases", len(checks))
+    t0 = time.time()
+    bad = common.run_cases(ctx, "proj", M.COQ_HEADER + SG.COQ_HEADER, checks, chunk=ctx.scale(40, 60), timeout=900)
+    ctx.stats["t_projection_s"] = round(time.time() - t0, 1)
+    ctx.traces_validated += len(checks) - len(bad)
+    seen = set()
+    for i in bad:
+        kind, hi, ei = descr[i]
+        sig = f"correspondence:projection:{kind}"
+        if sig in seen:
+            continue
+        seen.add(sig)
+        ev = hs[hi]["events"][ei]
+        before, ops = _tx_of(ev)
+        vals = common.eval_terms(ctx, "projdiag", M.COQ_HEADER + SG.COQ_HEADER,
+                                 SG.tx_diag(ev, before, ev["after"], ops, M.to_coq))
+        verdict = {"0": "ok", "1": "the replayed sequence does not land on the real columns",
+                   "2": "a primitive is applied where its side condition (run_ok_b) fails",
+                   "3": "the transaction model rejects the operation or a primitive is undefined"}.get(
+                       (vals[0] or "").strip(), str(vals[0]))
+        ctx.add_failure(
+            "correspondence", "projection:" + kind, sig,
+            f"transaction {ev['op']} (event {ei} of history {hi}): {verdict}; projected primitives of the first "
+            f"operation: {vals[1]}; rows of the model result that are not in the real tables / edges only in the "
+            f"model / edges only in reality: {vals[2]}",
+            witness={"history": hi, "event": ei, "op": ev["op"], "args": ev.get("args"),
+                     "operations": [list(x) for x in ops], "before": before, "after": ev["after"]})
 
 
 def _prim_term(rec):
